@@ -160,7 +160,7 @@ pub fn plan(rng: &mut Rng, mode: Option<bool>) -> Plan {
         }
     }
     let mut err = None;
-    match rng.below(if abandon { 3 } else { 5 }) {
+    match rng.below(if abandon { 4 } else { 5 }) {
         0 | 1 => {
             let code = *rng.pick(&[1064u16, 1146, 1048, 1366, 1105]);
             let ml = rng.below(40) as usize;
@@ -205,10 +205,11 @@ struct Told {
     finish_error_ok: bool,
     trailing_ok: Option<(u64, u64)>,
     refusals: usize,
+    dropped_mid_row: bool,
 }
 
 fn told(p: &Plan, results: &[OpRes]) -> Told {
-    let mut t = Told { rows: vec![], aborted: false, finish_error_ok: false, trailing_ok: None, refusals: 0 };
+    let mut t = Told { rows: vec![], aborted: false, finish_error_ok: false, trailing_ok: None, refusals: 0, dropped_mid_row: false };
     let mut cur: Vec<Cell> = Vec::new();
     let mut ri = 0;
     for (oi, op) in p.prog.ops.iter().enumerate() {
@@ -269,8 +270,16 @@ fn told(p: &Plan, results: &[OpRes]) -> Told {
             }
             QOp::Finish | QOp::FinishOne | QOp::DropRow | QOp::FinishErr(..) => {
                 if ok {
-                    if !cur.is_empty() {
+                    // a complete row that was not ended yet is ended here; an incomplete one cannot be
+                    // sent: a call that reports success then must have discarded it (a dropped writer
+                    // has no way to report anything: the error may surface as run_on's result instead)
+                    if cur.len() == p.cols.len() {
                         t.rows.push(std::mem::take(&mut cur));
+                    } else if !cur.is_empty() {
+                        cur.clear();
+                        if matches!(op, QOp::DropRow) {
+                            t.dropped_mid_row = true;
+                        }
                     }
                     if matches!(op, QOp::FinishErr(..)) {
                         t.finish_error_ok = true;
@@ -328,6 +337,12 @@ pub fn run_one(prop: &'static str, clause: Clause, mode: Option<bool>, rng: &mut
         if clause == Clause::Shape && matches!(obs.outcome, Outcome::Ok) {
             rep.violations.push(viol(prop, format!("{} recover error-return-masked", prop), "the backend returned the error a writer call gave it, run_on returned Ok".into(), d()));
         }
+        return;
+    }
+    if t.dropped_mid_row && obs.outcome.is_err() {
+        // the writer was dropped in the middle of a row: its destructor cannot return the error, so
+        // the connection ending with one is the report
+        rep.counters.inc("recover_dropped_mid_row_reported_by_run_on");
         return;
     }
     rep.counters.inc("recover_programs_completed");
